@@ -16,7 +16,7 @@ for pid in sorted(props.PROPS):
             "evidence_file": "/verif/evidence/%s.json" % pid,
             "replay_cmd_template": "cat {path}",
             "engine": "cbmc-contracts",
-            "level_claimed": {"category": p.get("category", "proof"), "text": p["text"], "design_ref": "DESIGN.md section 5 (%s) and 12" % pid},
+            "level_claimed": {"category": p.get("category", "proof"), "text": p["text"], "design_ref": "DESIGN.md section 5 (%s: plan), 11 and 14 (as built: 14.1 status, 14.4 C08, 14.5 C20, 14.6 C19, 14.8 verdict rules), 12 (defects)" % pid},
             "level_note": "; ".join(p.get("assumptions", [])) + "; trusted: CBMC 6.11 (goto-cc, goto-instrument --dfcc, CaDiCaL), spec/gen_spec.py transcription of the papers (validated on the 10 published vectors), C semantics as modelled by CBMC (compiler output not verified)",
             "technique": p.get("technique", "CBMC code contracts (dfcc)"),
         })
